@@ -454,8 +454,12 @@ def store_check(args, pid, mc_jobs, gen, invs, array_dup_oracle, assumptions, cl
             rp = json.load(open(args.replay))
             sc = rp["scenario"]
             tabs = tables_from_defs(sc)
-            stats, *_ = run_and_judge(pid, V, bins, [sc], lambda s: tabs, flags, invs, work, array_dup_oracle, classify,
-                                      value_oracle=value_oracle)
+            stats, traces, *_ = run_and_judge(pid, V, bins, [sc], lambda s: tabs, flags, invs, work, array_dup_oracle, classify,
+                                              value_oracle=value_oracle, end_oracle=end_oracle, decision_lines=decision_lines,
+                                              observation_lines=observation_lines)
+            if post_judge:
+                # (the laws between executions of one scenario are judged here)
+                post_judge(V, [sc], traces)
             print(json.dumps(stats))
             return V.finish()
         states = trans = 0
@@ -1745,6 +1749,7 @@ def check_C08(args):
                 law[lid] = {"kind": "from", "by": ",".join(sorted(oby)), "P": 2 * m}
             sc["cmds"][idx:idx] = qs
             laws[sc["scn"]] = law
+            sc["laws"] = law          # (kept with the scenario so that a replay can judge it)
             yield sc, tabs
 
     def post_judge(V, scenarios, traces):
@@ -1777,7 +1782,7 @@ def check_C08(args):
                                        "s" if "sub2" in l else "", str(l["values"]) + (" and " + str(l["values2"]) if "sub2" in l else ""), len(l["literal"])))
                     elif l["nested"]:
                         st["nontrivial"] += 1
-            for lid, lw in laws.get(scn, {}).items():
+            for lid, lw in (laws.get(scn) or by_id[scn].get("laws") or {}).items():
                 if lw["kind"] == "having":
                     base, withh = res.get(lid + "base"), res.get(lid + "with")
                     if not base or not withh or "err" in base or "err" in withh:
